@@ -187,7 +187,8 @@ def body(chk):
                     elif kind == 'intp':
                         r = ex.st.new_region('callerbuf', 4, 'caller:int')
                         r.fresh = False
-                        ex.st.mem[(r.rid, 0)] = (4, n if n is not None else tm.sym('n%d' % k, 'I'))
+                        # *n on entry is arbitrary: masa_get_array's length argument is output-only, so the data delivered may not depend on it
+                        ex.st.mem[(r.rid, 0)] = (4, tm.sym('n_in%d' % k, 'I') if (n is None or cname == 'masa_get_array') else n)
                         a = Ptr(r.rid, 0)
                     elif kind == 'dblp':
                         cap = (n if cname == 'masa_set_array' else nmax)
@@ -204,7 +205,7 @@ def body(chk):
                 return ex.call(cname, args)
             for sname, sm in summaries.items():
                 sm.callee_len = n if n is not None else 0
-            paths = ex.explore(w.base, thunk, 16)
+            paths = ex.explore(w.base, thunk, 64)
             chk.functions.add(cname)
             bad_callee, bad_ret, bad_data = [], [], []
             why = []
@@ -305,6 +306,7 @@ C_REPLAYS = {
     ('masa_init_param', 'status'): ('masa_init("h","masa_test_function"); int rc = masa_init_param(); printf("\\nR nonzero %d\\n", rc!=0);', ['R nonzero 1']),
     ('masa_sanity_check', 'status'): ('masa_init("h","euler_1d"); masa_purge_default_param(); int rc = masa_sanity_check(); printf("\\nR nonzero %d\\n", rc!=0);', ['R nonzero 1']),
     ('masa_get_array', 'status'): ('masa_init("h","cp_normal"); int n=0; double a[16]; int rc = masa_get_array("no_such_vector",&n,a); printf("\\nR nonzero %d\\n", rc!=0);', ['R nonzero 1']),
+    ('masa_get_array', 'data'): ('masa_init("h","cp_normal"); double in[5]={1.5,2.5,3.5,4.5,5.5}; int k; masa_set_array("vec_data",&(int){5},in); int ns[4]={64,5,0,3}; for(k=0;k<4;k++){ double a[64]; int i; for(i=0;i<64;i++) a[i]=-7.0; int n=ns[k]; masa_get_array("vec_data",&n,a); int ok = (n==5); for(i=0;i<5;i++) ok = ok && a[i]==in[i]; for(i=5;i<64;i++) ok = ok && a[i]==-7.0; printf("\\nR entry %d ok %d\\n", ns[k], ok);}', ['R entry 64 ok 1', 'R entry 5 ok 1', 'R entry 0 ok 1', 'R entry 3 ok 1']),
     ('masa_purge_default_param', 'status'): ('masa_init("h","euler_1d"); printf("\\nR same %d\\n", masa_purge_default_param()==0);', ['R same 1']),
 }
 
